@@ -11,6 +11,8 @@ OracleSymmetricScope == (Cmp3(a, b) = LAWS) = (Cmp3(b, a) = LAWS) /\ (Cmp3(a, b)
 Transitive == (Pinned(a, b) /\ Pinned(b, c) /\ Pinned(a, c) /\ Cmp3(a, b) <= 0 /\ Cmp3(b, c) <= 0) => Cmp3(a, c) <= 0
 Reflexive == (a.k # "bool") => Cmp3(a, a) \in {0, LAWS}
 \* numbers: exact rational order (agrees with the order of the numerators over a common denominator)
+OneStepUp == (a.k = "num") => LET u == [k |-> "numup", n |-> a.n, d |-> a.d] IN
+               Cmp3(a, u) = -1 /\ Cmp3(u, a) = 1 /\ Cmp3(u, u) = 0 /\ ((b.k = "num" /\ Cmp3(a, b) = -1) => Cmp3(u, b) = -1)
 NumbersExact == (a.k = "num" /\ b.k = "num") =>
                   LET m == a.d * b.d IN Cmp3(a, b) = Sign(a.n * (m \div a.d) - b.n * (m \div b.d))
 \* the blank clauses of the statement
